@@ -173,6 +173,12 @@ def len {α} (xs : List α) : Int := xs.length
 def sliceFrom {α} (xs : List α) (a : Nat) : List α := xs.drop a
 def sliceDropLast {α} (xs : List α) (k : Nat) : List α := xs.take (xs.length - k)
 
+/-- `xs[lo:hi]` / `xs[lo:]` for int bounds (negative bounds count from the end, everything is clamped: never raises) -/
+def sliceNorm (n : Nat) (i : Int) : Nat := if i < 0 then (i + n).toNat else min i.toNat n
+def sliceBetween {α} (xs : List α) (lo hi : Int) : List α :=
+  (xs.take (sliceNorm xs.length hi)).drop (sliceNorm xs.length lo)
+def sliceFromI {α} (xs : List α) (lo : Int) : List α := xs.drop (sliceNorm xs.length lo)
+
 /-- `d[k]` on a dict given as an association list (KeyError if absent) -/
 def dictGet {α} (tbl : List (Int × α)) (k : Int) : Except Err α :=
   match tbl.find? (fun p => p.1 == k) with
